@@ -270,3 +270,25 @@ def _void(U):
         U.ensure("Fermi-Dirac dispatch", isinstance(g(E, 300.0, "Fermi-Dirac"), FD) and made[-1] == ("FD", E, 300.0))
         U.ensure("Gaussian dispatch", isinstance(g(E, 0.1, "Gaussian"), GS) and made[-1] == ("G", E, 0.1))
     U.run(body)
+
+
+@unit("C17", "AbstractSmoother.__init__: the kernel covers exactly the energies within maxdE * smear, for integer and fractional maxdE", expect_min=2, scope="shape:6 parameter sets (maxdE 8, 2.5, 1.7, 0.9, 3; grids of 5-40 points)")
+def _smoother_init(U):
+    import numpy as rnp
+    f = U.fn(FS, "AbstractSmoother.__init__", globs=dict(np=rnp), model=False)
+
+    def body():
+        ok, ok_copy = True, True
+        for E0, dE, N, smear, maxdE in ((0.0, 0.25, 40, 0.5, 8), (-1.0, 0.125, 30, 0.5, 2.5), (0.0, 0.125, 30, 0.25, 1.75), (2.0, 0.5, 5, 0.25, 0.9), (0.0, 0.25, 9, 1.0, 3), (0.0, 0.5, 20, 0.125, 8)):
+            E = E0 + dE * rnp.arange(N)
+            asked = []
+            me = type("S", (), {"_broaden": lambda self, x: (asked.append(rnp.array(x)), rnp.exp(-rnp.array(x) ** 2))[1]})()
+            f(me, E, smear, maxdE)
+            n1 = int(rnp.floor(maxdE * smear / dE + 1e-12))                  # the number of grid steps within maxdE * smear (binary fractions: exact)
+            offs = rnp.arange(-n1, n1 + 1) * dE
+            ok = ok and me.NE1 == n1 and me.NE == N and me.dE == dE and len(asked) == 1 and asked[0].shape == offs.shape and bool(rnp.allclose(asked[0], offs, atol=1e-15)) \
+                and me.smt.shape == (2 * n1 + 1,) and bool(rnp.allclose(me.smt, rnp.exp(-offs ** 2) * dE, atol=1e-15)) and me.smear == smear and me.Emin == E[0] and me.Emax == E[-1]
+            ok_copy = ok_copy and me.E is not E and bool(rnp.array_equal(me.E, E))
+        U.ensure("NE1 = floor(maxdE * smear / dE); the kernel is the broadening function at the offsets -NE1..NE1 (times dE); nothing is rounded before that", ok)
+        U.ensure("the smoother keeps its own copy of the energy grid", ok_copy)
+    U.run(body, check_feasible=False)
